@@ -1467,7 +1467,9 @@ class _minmax(object):
                     else:
                         cnst = _vecmin(cnst,f)
 
-                elif type(f) is variable or type(f) is _function:
+                elif type(f) is variable or (type(f) is _function and
+                    ((self._ismax and f._isconvex()) or
+                    (not self._ismax and f._isconcave()))):
                     self._flist += [+f]
 
                 else:
